@@ -762,6 +762,27 @@ def source_pools() -> dict:
         "timedelta": [timedelta(0), timedelta(hours=1), timedelta(hours=1, milliseconds=200), timedelta(seconds=-10.1),
                       timedelta(days=3), SubTimedelta(seconds=5)],
         "uuid": [UID, SubUUID(int=5), UUID(int=0)],
+        # boundary values around every unit a converter tests.  Emitted for EVERY matching target in the quick tier too
+        # (BOUNDARY_TARGETS), not sampled: midnight +- one microsecond / half a second / one second as text, bytes,
+        # aware text, float / int / Decimal timestamps in seconds and in milliseconds, the ms watershed 2e10 +- 1
+        "b_midnight": ["2020-02-20 00:00:00", "2020-02-20 00:00:00.5", "2020-02-20 00:00:00.000001", "2020-02-20 00:00:00.999999",
+                       "2020-02-20 00:00:01", "2020-02-19 23:59:59.999999", "2020-02-20T00:00:00.75+08:00", "2020-02-20T00:00:00+08:00",
+                       "2020-02-20 00:00:00 +0800", "2020-02-20T00:00:00Z", "2020-02-20T00:00:00.25Z", "2020-02-20 00:00:00.5 GMT",
+                       b"2020-02-20 00:00:00.25", b"2020-02-20 00:00:00", ["2020-02-20 00:00:00.5"], "2020-02-20 12:00:00 AM",
+                       "2020-02-20 00:00", "2020-02-20 00:01", "00:00:00.5", "00:00:00", "00:00:00.000001"],
+        "b_timestamp": [1582156800, 1582156800.0, 1582156800.5, 1582156800.000001, 1582156799.999999, 1582156801, 1582156799,
+                        1582156800000, 1582156800001, 1582156800000.5, 1582156800500, 1582156800000000, 1582156800000001,
+                        Decimal("1582156800"), Decimal("1582156800.5"), Decimal("1582156800.000001"), "1582156800", "1582156800.5",
+                        "1582156800000", "1582156800001", b"1582156800.25", 20000000000, 20000000001, 19999999999, 20000000000.5,
+                        -20000000001, 86400, 86400.25, 86399.999999, 0, 0.5, -0.5, 0.000001, -86400, [1582156800.5], 1582156800 + 8 * 3600],
+        "b_datetime": [datetime(2020, 2, 20), datetime(2020, 2, 20, 0, 0, 0, 1), datetime(2020, 2, 20, 0, 0, 0, 500000),
+                       datetime(2020, 2, 20, 0, 0, 1), datetime(2020, 2, 20, tzinfo=timezone(timedelta(hours=8))),
+                       datetime(2020, 2, 20, 0, 0, 0, 250000, tzinfo=timezone.utc), datetime(2020, 2, 19, 23, 59, 59, 999999)],
+        # x.0 vs x.5 and one ulp around it for the integral / boolean tests; 2^53 +- 1; the UUID range ends
+        "b_number": [3.0, 3.5, 2.9999999999999996, 3.0000000000000004, 1.0000000000000002, 0.9999999999999999, 1.0, 0.0, 5e-324,
+                     float(2 ** 53), float(2 ** 53) + 2, 2 ** 53 + 1, Decimal("3.0"), Decimal("3.00"), Decimal("3.5"), Decimal("3E+0"),
+                     Decimal("30E-1"), Decimal("1.0"), Decimal("1.00000000000000000001"), Decimal("0E-10"), "3.0", "3.5", "3",
+                     b"3.0", [3.0], [3.5], 2 ** 128 - 1, 2 ** 128, -1, 1 + 0j, 1 + 1e-300j, 0.5 + 0j],
         "enum_plain": [("e", 0, 0), ("e", 0, 1), ("e", 1, 0), ("e", 1, 1), ("e", 5, 0), ("e", 5, 1)],
         "enum_mixin": [("e", 2, 0), ("e", 2, 1), ("e", 3, 0), ("e", 3, 1), ("e", 4, 0), ("e", 4, 1)],
         "object": [("o", 0), ("o", 1), ("o", 2)],
@@ -907,6 +928,11 @@ def random_value(rng: random.Random, depth=0):
                        UID, 1 + 0j, 0j, 2 + 1j])
 
 
+# boundary pools are not sampled: every value goes to every target whose converter tests that unit
+BOUNDARY_TARGETS = {"b_midnight": ("date", "datetime", "time"), "b_timestamp": ("date", "datetime", "timedelta", "int"),
+                    "b_datetime": ("date", "time", "datetime"), "b_number": ("int", "bool", "UUID", "float", "Decimal")}
+
+
 def gen_cases(tier: str, rng: random.Random, n: int) -> list:
     pools = pool_json()
     targets = all_targets()
@@ -924,6 +950,12 @@ def gen_cases(tier: str, rng: random.Random, n: int) -> list:
                 if kind in heavy and rng.random() < 0.8:
                     continue
                 cases.append(mk_case(t, rng.choice(vals)))
+    if tier != "thorough":
+        for kind, tnames in BOUNDARY_TARGETS.items():
+            for v in pools[kind]:
+                for t in targets:
+                    if t.get("cls") in tnames:
+                        cases.append(mk_case(t, v))
     kinds = [k for k in pools if k not in heavy]
     while len(cases) < n or (tier == "search" and len(cases) < n):
         if rng.random() < 0.5:
@@ -1120,6 +1152,34 @@ def is_timed_string(s: str) -> bool:
     return False
 
 
+def timed_timestamp(x, r=None) -> bool:
+    """a timestamp (number, or text that is a plain decimal number) that does not fall on a UTC midnight once it is
+    scaled below the millisecond watershed and rounded to microseconds — written from the documentation of
+    `datetime`: seconds since the epoch, microsecond resolution"""
+    from fractions import Fraction
+    if isinstance(x, str):
+        if not re.fullmatch(r"\s*[+-]?\d+(\.\d+)?\s*", x):
+            return False
+        q = Fraction(x.strip())
+    else:
+        q = num_value(x) if jkind(x) in ("int", "float", "Decimal") else None
+        if q is None:
+            return False
+    while abs(q) > 2 * 10 ** 10:
+        q /= 1000
+    micro = round(q * 10 ** 6)
+    if micro % (86400 * 10 ** 6) == 0:
+        return False
+    if r is not None and isinstance(r, dict) and "date" in r:
+        # only when the result is the day of that timestamp (a text like '20200220' is a date in its own right)
+        try:
+            day = date(1970, 1, 1) + timedelta(days=micro // (86400 * 10 ** 6))
+        except OverflowError:
+            return False
+        return [day.year, day.month, day.day] == list(r["date"])
+    return True
+
+
 class C12(Check):
     prop = "C12"
     props_modules = ["Utv.Props.C12", "Utv.Util.ConvJson"]
@@ -1267,6 +1327,8 @@ class C12(Check):
             txt = text_of(src)
             if txt is not None and is_timed_string(txt):
                 return f"timed string {txt!r} became a date"
+            if timed_timestamp(src if txt is None else txt, r):
+                return f"timestamp {json.dumps(src)[:60]} with a time of day became a date (no information may be dropped)"
         return None
 
     def nec_group(self, t, v, r, env):
@@ -1753,6 +1815,7 @@ def inherit_values():
     return {
         "count": [1.5, "2.75", "3", 3, 3.0, Decimal("1.0"), Decimal("1.5"), True, [1, 2], [3], b"\xff1", b"7", "", timedelta(hours=1)],
         "day": [datetime(2022, 3, 4, 10, 11, 12), "2022-03-04 10:11:12", "2022-03-04", date(2022, 3, 4), "2022-03-04 00:00:00", 1641158543,
+                "2022-03-04 00:00:00.5", 1646352000.5, 1646352000, datetime(2022, 3, 4, 0, 0, 0, 1),
                 b"2022-03-04", ["2022-03-04", "2022-03-05"]],
         "flag": ["maybe", "true", "no", 1, 2, 0.0, "", [True, False], b"yes", "2"],
         "name": [["a", "b"], ["a"], "测试1".encode("gbk"), 107, "x", b"ok", 1.5, {"a": 1}, True],
